@@ -359,6 +359,10 @@ impl SendRateComp {
             _ => panic!()
         }
 
+        // The halved limit is derived from X_tcp and X_recv, either of which may exceed the
+        // application's ceiling while the ceiling was what limited X
+        self.send_rate = self.send_rate.min(self.max_send_rate);
+
         // Compute RTO for the new send rate, see section 4.4 step 2
         // No default RTT is specified by TFRC, but using RTT = 0 when no feedback has been
         // received will cause RTO to begin at 2s, and double each time send_rate is halved above.
